@@ -670,6 +670,7 @@ def wrapper_correspondence(ctx, rng, drv):
                         stored={NAMES[i]: hexl(r) for i, r in zip(state_names, state_rows)})
             scale_out = None
             ok = True
+            store_bad = None
             if is_err(ri) or isinstance(rm, (int, np.integer)):
                 ok = same(ri, rm if isinstance(rm, (int, np.integer)) else None, None) if is_err(ri) else False
                 if is_err(ri) and not ok:
@@ -689,6 +690,8 @@ def wrapper_correspondence(ctx, rng, drv):
                 ri = np.where(undef, NAN, ri)
                 out_m = np.where(undef, NAN, out_m)
                 ok = names_i == [int(k) for k in names_m] and close(ri, out_m, rtol=1e-9, scale=scale_out)
+                if names_i != [int(k) for k in names_m]:
+                    store_bad = "stored names %s, expected %s" % ([NAMES[k] for k in names_i], [NAMES[int(k)] for k in names_m])
                 if ok:
                     for k, row in zip(names_i, rows_m):
                         cur = np.array(fld[NAMES[k]], dtype=float)
@@ -696,15 +699,17 @@ def wrapper_correspondence(ctx, rng, drv):
                             cur, row = np.where(undef, NAN, cur), np.where(undef, NAN, row)
                         if not close(cur, row, rtol=1e-9, scale=1.0 + np.abs(cur)):
                             ok = False
+                            store_bad = "stored field '%s' is not the one predicted (target of this call: %s)" % (NAMES[k], tgt)
                 if ok:
                     state_names = [int(k) for k in names_m]
                     state_rows = [np.array(fld[NAMES[k]], dtype=float).copy() for k in state_names]   # re-synchronise on the implementation
             if not ok:
                 report(ctx, "correspondence: Field.transform('%s')" % mname,
-                              "Field.transform wrapper and model disagree (returned values / error kind / stored fields)",
+                              "Field.transform wrapper and model disagree (returned values / error kind / stored fields)" + (
+                                  "" if store_bad is None else ": " + store_bad + " — the statement of C19_transform_store fails on this history"),
                               dict(case, impl=(list(ri) if is_err(ri) else hexl(ri)),
                                    model=(int(rm) if isinstance(rm, (int, np.integer)) else [list(map(int, rm[0])), hexl(rm[2])])),
-                              key="corr:wrapper:%s" % mname, no_input=True)
+                              key=("corr:wrapper:%s" % mname) if store_bad is None else "corr:wrapper-store", no_input=(store_bad is None))
                 break
     ctx.notes.append("wrapper correspondence: %d Field.transform calls in %d operation sequences" % (nops, nseq))
 
@@ -1092,13 +1097,396 @@ def grid_cells(ctx, rng, drv):
     ctx.notes.append("mesh/dim/mean/trend/normalizer/flag cells: %d Field.transform calls" % ncells)
 
 
+# --------------------------------------------------------------------------- round 4: thresholds, scale ratios, store selection, input classes
+
+EPS = float(np.finfo(float).eps)
+
+
+def threshold_approach(ctx, rng, drv):
+    """every branch threshold of the transformation code is approached geometrically from both sides (10^-j, j = 1..12, and the
+    neighbouring floats): np.isclose(lmbda, 0) of array_boxcox / BoxCox (1e-8), the cut-off lmbda*x+1 = 0, the sign masks of
+    _uniform_to_uquad (u = 1/2), the class boundaries of array_discrete.  Implementation vs model, and the statement itself with a
+    tolerance from the conditioning of the documented formula (Box-Cox round trip: error of (b^(1/l))^l ~ eps*b/|l|)."""
+    from gstools.transform import array as A
+    from gstools.normalizer import BoxCox
+    import gstools as gs
+    x = np.concatenate([rng.normal(0.3, 0.8, size=12), [0.0, 1.0, -1.0, 2.5]])
+    lambdas = [s * 10.0 ** -j for j in range(1, 13) for s in (1.0, -1.0)]
+    lambdas += [1e-8, -1e-8, float(np.nextafter(1e-8, 1)), float(np.nextafter(1e-8, 0)), 3e-8, -3e-8, 3e-6, -3e-6, 5e-5, 2e-4, -2e-4]
+    fld = gs.SRF(gs.Gaussian(dim=1, var=1.0), mean=0.3)
+    fld.set_pos([np.arange(len(x), dtype=float)], "unstructured")
+    fld.post_field(x, name="field", process=False, save=True)
+    for lm in lambdas:
+        for sh in (0.0, 0.7):
+            r = x + sh
+            ri = impl_call(A.array_boxcox, x, lm, sh)
+            rm = drv.call("boxcox", x, lm, sh)
+            ctx.count(("threshold", "boxcox", lm, sh), hist=dict(threshold="array_boxcox lmbda -> 0"))
+            case = dict(function="array_boxcox", field=hexl(x), lmbda=lm, shift=sh)
+            if is_err(ri):
+                report(ctx, "probe: array_boxcox near lmbda = 0", "array_boxcox raised %s" % ri[2], case, key="threshold:boxcox")
+                continue
+            with warnings.catch_warnings():
+                warnings.simplefilter("ignore")
+                back = np.array(BoxCox(lmbda=lm).normalize(ri), dtype=float)
+            tol = 8 * EPS * (1 + np.abs(r)) if abs(lm) <= 1e-8 else 32 * EPS * (1 + np.abs(lm * r)) / abs(lm) + 8 * EPS * (1 + np.abs(r))
+            inv_ok = bool((np.abs(back - r) <= tol).all())
+            if not inv_ok:
+                report(ctx, "probe: array_boxcox inverts the BoxCox normalizer (lmbda = %g)" % lm,
+                       "BoxCox(lmbda).normalize(array_boxcox(x, lmbda, shift)) differs from x + shift by %.3g (conditioning bound %.3g)" % (
+                           float(np.max(np.abs(back - r))), float(np.max(tol))),
+                       dict(case, out=hexl(ri), back=hexl(back)), key="threshold:boxcox-inverse")
+            if not close(ri, rm, rtol=1e-9, scale=np.abs(rm)):
+                report(ctx, "correspondence: array_boxcox near lmbda = 0 (lmbda = %g)" % lm,
+                       "implementation and model disagree on array_boxcox (inverse-of-normalizer statement %s on this input)" % ("holds" if inv_ok else "FAILS"),
+                       dict(case, impl=hexl(ri), model=hexl(rm)), key="threshold:boxcox-corr", no_input=inv_ok)
+            rw = impl_call(fld.transform, "boxcox", lmbda=lm, shift=sh, store=False)
+            if is_err(rw) or not C.bit_equal(rw, ri):
+                report(ctx, "probe: Field.transform('boxcox') near lmbda = 0", "Field.transform('boxcox') differs from array_boxcox on the stored field",
+                       dict(case, got=(list(rw) if is_err(rw) else hexl(rw))), key="threshold:boxcox-wrapper")
+        # the normalizer formula itself
+        y = np.exp(rng.normal(size=8))
+        ni = impl_call(lambda: BoxCox(lmbda=lm).normalize(y))
+        nm = drv.call("boxcox_normalize", y, lm)
+        ctx.count(("threshold", "BoxCox.normalize", lm), hist=dict(threshold="BoxCox.normalize lmbda -> 0"))
+        if is_err(ni) or not close(ni, nm, rtol=1e-9, scale=np.abs(nm) + (0.0 if abs(lm) <= 1e-8 else 16 * EPS / abs(lm) / 1e-9)):
+            report(ctx, "correspondence: BoxCox.normalize near lmbda = 0 (lmbda = %g)" % lm, "implementation and model disagree on BoxCox.normalize",
+                   dict(data=hexl(y), lmbda=lm, impl=(list(ni) if is_err(ni) else hexl(ni)), model=hexl(nm)), key="threshold:normalize", no_input=True)
+    # cut-off of array_boxcox: lmbda * (x + shift) + 1 -> 0 from both sides
+    for lm in (0.5, 2.0, -0.4):
+        root = -1.0 / lm
+        xs = np.array([root + s * abs(root) * 10.0 ** -j for j in range(1, 15) for s in (1, -1)] + [root, np.nextafter(root, 9), np.nextafter(root, -9)])
+        ri = impl_call(A.array_boxcox, xs, lm, 0.0)
+        rm = drv.call("boxcox", xs, lm, 0.0)
+        ctx.count(("threshold", "boxcox-cutoff", lm), hist=dict(threshold="array_boxcox cut-off"))
+        if is_err(ri) or not close(ri, rm, rtol=1e-9, scale=np.abs(rm)):
+            report(ctx, "correspondence: array_boxcox at the cut-off", "implementation and model disagree on array_boxcox where lmbda*x+1 changes sign",
+                   dict(field=hexl(xs), lmbda=lm, impl=(list(ri) if is_err(ri) else hexl(ri)), model=hexl(rm)), key="threshold:cutoff", no_input=True)
+    # sign masks of _uniform_to_uquad at u = 1/2, directly and through array_to_uquad
+    for rep in range(3):
+        a = float(rng.normal() * 3)
+        b = a + lu(rng, 0.05, 30)
+        u = np.array([0.5 + s * 10.0 ** -j for j in range(1, 17) for s in (1, -1)] + [0.5, np.nextafter(0.5, 1), np.nextafter(0.5, 0)])
+        ri = impl_call(A._uniform_to_uquad, u, a, b)
+        rm = drv.call("uniform_to_uquad", u, a, b)
+        ctx.count(("threshold", "uquad", rep), hist=dict(threshold="_uniform_to_uquad u -> 1/2"))
+        st_ok = (not is_err(ri)) and bool((np.abs(cdf_uquad(ri, a, b) - u) <= 64 * EPS).all()) and bool((np.diff(ri[np.argsort(u, kind="stable")]) >= 0).all())
+        if is_err(ri) or not st_ok or not close(ri, rm, rtol=1e-9, scale=abs(a) + abs(b)):
+            report(ctx, "probe: _uniform_to_uquad around u = 1/2", "_uniform_to_uquad: cdf(T(u)) = u / monotonicity %s around the branch point; model comparison %s" % (
+                "holds" if st_ok else "FAILS", "ok" if (not is_err(ri) and close(ri, rm, rtol=1e-9, scale=abs(a) + abs(b))) else "differs"),
+                   dict(u=hexl(u), a=a, b=b, impl=(list(ri) if is_err(ri) else hexl(ri)), model=hexl(rm)), key="threshold:uquad", no_input=st_ok)
+        m, s = float(rng.normal() * 2), lu(rng, 0.1, 5)
+        xq = np.array([m + sg * s * 10.0 ** -j for j in range(0, 15) for sg in (1, -1)] + [m])
+        kw = dict(field=xq, mean=m, var=s * s, a=a, b=b)
+        ro = impl_call(A.array_to_uquad, **kw)
+        rq = drv.call("to_uquad", xq, opt(m), opt(s * s), opt(a), opt(b))
+        ok_s = (not is_err(ro)) and property_holds("array_to_uquad", kw, ro)
+        if not ok_s or not close(ro, rq, rtol=1e-9, scale=abs(a) + abs(b)):
+            report(ctx, "probe: array_to_uquad around the mean", "array_to_uquad around x = mean: statement %s" % ("holds" if ok_s else "FAILS"),
+                   dict(field=hexl(xq), mean=m, var=s * s, a=a, b=b, impl=(list(ro) if is_err(ro) else hexl(ro))), key="threshold:uquad-array", no_input=bool(ok_s))
+    # class boundaries of array_discrete
+    thr = np.array([-0.5, 0.25, 1.0])
+    vals = np.array([3.0, -1.0, 0.5, 7.0])
+    xd = [t + s * 10.0 ** -j for t in thr for j in range(1, 17) for s in (1, -1)] + list(thr) + [np.nextafter(t, 9) for t in thr] + [np.nextafter(t, -9) for t in thr]
+    xd = np.array(xd, dtype=float)
+    for tt in (list(thr), thr):
+        ri = impl_call(A.array_discrete, xd, vals, tt)
+        rm = drv.call("discrete", NAN, xd, vals, ("n", 2), thr, E, E)
+        ctx.count(("threshold", "discrete", type(tt).__name__), hist=dict(threshold="array_discrete class boundaries"))
+        if is_err(ri) or not bool((ri == rm).all()) or not discrete_statement(xd, vals, thr, ri, 0.0, 1.0):
+            report(ctx, "probe: array_discrete at the class boundaries", "array_discrete: class of a value next to a threshold is wrong",
+                   dict(field=hexl(xd), values=hexl(vals), thresholds=hexl(thr), impl=(list(ri) if is_err(ri) else hexl(ri))), key="threshold:discrete")
+
+
+def exact_moments(a):
+    """exact rational sample mean and population variance of an array of doubles"""
+    from fractions import Fraction
+    fr = [Fraction(float(v)) for v in np.asarray(a, dtype=float).ravel()]
+    n = len(fr)
+    m = sum(fr) / n
+    v = sum((q - m) ** 2 for q in fr) / n
+    return m, v
+
+
+def scale_ratios(ctx, rng, drv):
+    """|mean| / std of the input from 1 to 1e8 (both signs, two scales) for every transformation that uses moments.
+    force_moments instantiates the theorem C19_force_moments_exact: the EXACT rational sample mean / variance of the returned doubles
+    against the requested ones, tolerance from the conditioning of the documented two-pass formula
+    (mean: eps*(ratio*sqrt(var) + |mean|); variance: relative eps*(1 + |mean|/sqrt(var)) + eps*ratio — not eps*ratio^2).
+    Transformations that estimate mean / variance from the data (mean=None, var=None) and the Field.transform wrappers: pointwise
+    statement with the exact rational moments, tolerance 1e-9 + 64*eps*ratio (the standardised value (x-m)/s has that conditioning)."""
+    from gstools.transform import array as A
+    import gstools as gs
+    n = 120 if ctx.tier == "quick" else 400
+    for k in range(0, 9):
+        R = 10.0 ** k
+        for sd in ((1.0, 3e-3) if ctx.tier == "quick" else (1.0, 3e-3, 40.0)):
+            sign = 1.0 if (k + int(sd < 1)) % 2 == 0 else -1.0
+            mean_in = sign * R * sd
+            x = mean_in + sd * rng.normal(size=n)
+            me, ve = exact_moments(x)
+            mf, vf = float(me), float(ve)
+            tolz = 1e-9 + 64 * EPS * R
+            tolm = 1e-9 + 4 * n * EPS * R           # sequential (model) vs pairwise (numpy) summation of the mean
+            case0 = dict(ratio=R, std=sd, n=n, field=hexl(x))
+            # ---- force moments: exact statement
+            for tm, tv in ((0.0, 1.0), (mean_in, sd * sd), (-3.0 * R, 4.0), (0.25, 1e-6)):
+                ri = impl_call(A.array_force_moments, x, tm, tv)
+                rm = drv.call("force_moments", x, tm, tv)
+                ctx.count(("ratio", "force_moments", k, sd, tm == 0.0), hist=dict(scale_ratio="force_moments 1e%d" % k))
+                case = dict(case0, function="array_force_moments", mean=tm, var=tv)
+                bad = is_err(ri) or not np.isfinite(ri).all()
+                if not bad:
+                    mo, vo = exact_moments(ri)
+                    rq = abs(tm) / math.sqrt(tv)
+                    tol_mean = 64 * EPS * (R * math.sqrt(tv) + abs(tm) + math.sqrt(tv))
+                    tol_var = 64 * EPS * (1 + rq) + 4 * EPS * R
+                    bad = abs(float(mo - Fraction_of(tm))) > tol_mean or abs(float(vo / Fraction_of(tv)) - 1.0) > tol_var
+                    case.update(sample_mean=float(mo), sample_var=float(vo), tol_mean=tol_mean, tol_var_rel=tol_var)
+                if bad:
+                    report(ctx, "probe: force_moments exact moments, |mean|/std = 1e%d" % k,
+                           "array_force_moments: exact sample mean / variance of the result differ from the requested ones beyond the conditioning of the two-pass formula",
+                           dict(case, out=(list(ri) if is_err(ri) else hexl(ri))), key="ratio:force_moments")
+                elif not close(ri, rm, rtol=tolm, scale=abs(tm) + math.sqrt(tv) * (1 + np.abs(x - mf) / math.sqrt(vf))):
+                    report(ctx, "correspondence: array_force_moments, |mean|/std = 1e%d" % k, "implementation and model disagree on array_force_moments (exact-moment statement holds)",
+                           dict(case, impl=hexl(ri), model=hexl(rm)), key="ratio:force_moments-corr", no_input=True)
+            # ---- moments estimated from the data / given
+            z = (x - mf) / math.sqrt(vf)
+            low, high = -1.5, 4.0
+            da, db = mf - math.sqrt(2 * vf), mf + math.sqrt(2 * vf)
+            qa, qb = mf - math.sqrt(5 / 3 * vf), mf + math.sqrt(5 / 3 * vf)
+            for given in (False, True):
+                mv = dict(mean=mf, var=vf) if given else dict(mean=None, var=None)
+                om, ov = opt(mv["mean"]), opt(mv["var"])
+                tests = [
+                    ("array_to_uniform", dict(low=low, high=high), lambda d: d.call("to_uniform", x, om, ov, low, high),
+                     lambda o: np.abs((o - low) / (high - low) - special.ndtr(z)), abs(low) + abs(high), None),
+                    ("array_to_arcsin", {}, lambda d: d.call("to_arcsin", x, om, ov, E, E),
+                     lambda o: np.abs(o - stats.arcsine.ppf(special.ndtr(z), loc=da, scale=db - da)) / math.sqrt(vf), abs(mf) + 2 * math.sqrt(vf), None),
+                    ("array_to_uquad", {}, lambda d: d.call("to_uquad", x, om, ov, E, E),
+                     lambda o: np.abs(cdf_uquad(o, qa, qb) - special.ndtr(z)), abs(mf) + 2 * math.sqrt(vf), None),
+                    ("array_zinnharvey", dict(conn="low"), lambda d: d.call("zinnharvey", x, False, om, ov),
+                     lambda o: np.abs(special.ndtr((o - mf) / math.sqrt(vf)) - (2 * special.ndtr(np.abs(z)) - 1)), None, "zh"),
+                    ("array_zinnharvey", dict(conn="high"), lambda d: d.call("zinnharvey", x, True, om, ov),
+                     lambda o: np.abs(special.ndtr((o - mf) / math.sqrt(vf)) - (2 - 2 * special.ndtr(np.abs(z)))), None, "zh"),
+                ]
+                for name, kw, model, stmt, sc, kind in tests:
+                    ri = impl_call(getattr(A, name), x, **dict(mv, **kw))
+                    rm = model(drv)
+                    ctx.count(("ratio", name, k, sd, given, kw.get("conn")), hist=dict(scale_ratio="%s 1e%d" % (name, k)))
+                    case = dict(case0, function=name, given=given, kwargs=kw)
+                    st_ok = (not is_err(ri)) and bool((stmt(ri) <= tolz).all())
+                    if kind == "zh":
+                        w = (2.0 + 1.0 / np.maximum(np.abs(z), 1e-300))
+                        keep = np.abs(z) > 1e-3
+                        c_ok = (not is_err(ri)) and close(ri[keep], rm[keep], rtol=(1e-9 if given else tolm), scale=(abs(mf) + math.sqrt(vf) * (1 + np.abs(z)) * w)[keep])
+                    else:
+                        c_ok = (not is_err(ri)) and close(ri, rm, rtol=(1e-9 if given else tolm), scale=sc)
+                    if not st_ok:
+                        report(ctx, "probe: %s, |mean|/std = 1e%d" % (name, k),
+                               "%s (mean/var %s): F_target(T x) differs from Phi((x-m)/s) with the exact sample moments beyond 1e-9 + 64 eps ratio" % (name, "given" if given else "estimated from the data"),
+                               dict(case, out=(list(ri) if is_err(ri) else hexl(ri))), key="ratio:%s" % name)
+                    elif not c_ok:
+                        report(ctx, "correspondence: %s, |mean|/std = 1e%d" % (name, k), "implementation and model disagree on %s (statement holds)" % name,
+                               dict(case, impl=hexl(ri), model=hexl(rm)), key="ratio:%s-corr" % name, no_input=True)
+                # discrete 'equal' (normal quantiles of the moments) and 'arithmetic'
+                vals = np.array([mf - sd, mf + 0.5 * sd, mf + 2 * sd, mf - 3 * sd])
+                for mode, code in (("equal", 1), ("arithmetic", 0)):
+                    kwd = dict(values=vals, thresholds=mode, **({} if mode == "arithmetic" else mv))
+                    ri = impl_call(A.array_discrete, x, **kwd)
+                    rm = drv.call("discrete", NAN, x, vals, ("n", code), E, om if mode == "equal" else E, ov if mode == "equal" else E)
+                    ctx.count(("ratio", "discrete", mode, k, sd, given), hist=dict(scale_ratio="array_discrete-%s 1e%d" % (mode, k)))
+                    if mode == "equal":
+                        thr_ = stats.norm.ppf(np.arange(1, 4) / 4, loc=mf, scale=math.sqrt(vf))
+                        vs = vals
+                    else:
+                        vs = np.sort(vals)
+                        thr_ = (vs[1:] + vs[:-1]) / 2
+                    near = np.min(np.abs(x[:, None] - thr_[None, :]), axis=1) <= (1e-9 + 8 * n * EPS * R) * sd
+                    cls = np.searchsorted(thr_, x, side="left")
+                    ok = (not is_err(ri)) and isinstance(rm, np.ndarray) and bool(np.isin(ri, vals).all()) and bool(((ri == vs[cls]) | near).all()) and bool(((ri == rm) | near).all())
+                    if not ok:
+                        report(ctx, "probe: array_discrete '%s', |mean|/std = 1e%d" % (mode, k), "array_discrete(thresholds='%s') does not put the values into the classes of the documented thresholds" % mode,
+                               dict(case0, function="array_discrete", mode=mode, given=given, values=hexl(vals), out=(list(ri) if is_err(ri) else hexl(ri))), key="ratio:discrete-%s" % mode)
+            # ---- through Field.transform: field mean = mean_in, sill = sd^2
+            fld = gs.SRF(gs.Gaussian(dim=1, var=0.75 * sd * sd, nugget=0.25 * sd * sd), mean=mean_in)
+            fld.set_pos([np.arange(n, dtype=float)], "unstructured")
+            fld.post_field(x, name="field", process=False, save=True)
+            sill = float(fld.model.sill)
+            zs = (x - mean_in) / math.sqrt(sill)
+            wtests = [("normal_to_uniform", dict(low=low, high=high), lambda o, sh: np.abs((o - sh - low) / (high - low) - special.ndtr(zs))),
+                      ("normal_to_uquad", dict(a=-2.0, b=1.0), lambda o, sh: np.abs(cdf_uquad(o - sh, -2.0, 1.0) - special.ndtr(zs))),
+                      ("zinnharvey", dict(conn="low"), lambda o, sh: np.abs(special.ndtr((o - mean_in) / math.sqrt(sill)) - (2 * special.ndtr(np.abs(zs)) - 1)))]
+            for process, keep_mean in ((False, True), (True, True), (True, False)):
+                sh = mean_in if (process and not keep_mean) else 0.0
+                for mname, kw, stmt in wtests:
+                    ri = impl_call(fld.transform, mname, store=False, process=process, keep_mean=keep_mean, **kw)
+                    ctx.count(("ratio", "wrapper", mname, k, sd, process, keep_mean), hist=dict(scale_ratio="Field.transform 1e%d" % k))
+                    # re-adding the mean rounds the result to eps*|mean|: in units of the target interval that is eps*ratio*std
+                    tolw = 1e-9 + 64 * EPS * R * max(1.0, sd)
+                    if is_err(ri) or not bool((stmt(ri, sh) <= tolw).all()):
+                        report(ctx, "probe: Field.transform('%s'), |mean|/std = 1e%d" % (mname, k),
+                               "Field.transform('%s', process=%s, keep_mean=%s): statement fails for a field with a large mean / std ratio" % (mname, process, keep_mean),
+                               dict(case0, method=mname, kwargs=kw, process=process, keep_mean=keep_mean, mean=mean_in, sill=sill,
+                                    out=(list(ri) if is_err(ri) else hexl(ri))), key="ratio:wrapper:%s" % mname)
+                ri = impl_call(fld.transform, "normal_force_moments", store=False, process=process, keep_mean=keep_mean)
+                ctx.count(("ratio", "wrapper", "force_moments", k, sd, process, keep_mean), hist=dict(scale_ratio="Field.transform 1e%d" % k))
+                bad = is_err(ri) or not np.isfinite(ri).all()
+                if not bad:
+                    mo, vo = exact_moments(ri)
+                    # with keep_mean=False the mean is re-added after the array function: one more rounding of size eps*|mean| per cell
+                    bad = abs(float(mo) - mean_in) > 64 * EPS * (R * sd + abs(mean_in) + sd) or abs(float(vo) / sill - 1.0) > 64 * EPS * (1 + R) + 4 * EPS * R
+                if bad:
+                    report(ctx, "probe: Field.transform('normal_force_moments'), |mean|/std = 1e%d" % k,
+                           "normal_force_moments(process=%s, keep_mean=%s): exact sample moments of the result are not the field mean / model sill" % (process, keep_mean),
+                           dict(case0, process=process, keep_mean=keep_mean, mean=mean_in, sill=sill, out=(list(ri) if is_err(ri) else hexl(ri))), key="ratio:wrapper:force_moments")
+
+
+def Fraction_of(v):
+    from fractions import Fraction
+    return Fraction(float(v))
+
+
+STORE_METHODS = [("binary", {}), ("discrete", dict(values=[0.0, 1.0, 2.5], thresholds="arithmetic")), ("discrete", dict(values=[0.0, 1.0, 2.5], thresholds="equal")),
+                 ("boxcox", dict(lmbda=0.5)), ("zinnharvey", {}), ("normal_force_moments", {}), ("normal_to_lognormal", {}), ("normal_to_uniform", {}),
+                 ("normal_to_arcsin", {}), ("normal_to_uquad", {}), ("function", dict(function=lambda d: 2.0 * d + 1.0)),
+                 ("lognormal", {}), ("uniform", {})]
+
+
+def probe_store(ctx, rng):
+    """source-field selection x store argument for every transformation wrapper (statement of C19_transform_store): several stored
+    fields, field= each of them, store in {True, False, new name, another existing name, the source name}; afterwards EVERY stored field
+    is checked: the target holds the returned array, all others are bit-identical, the name list grows only by a new name"""
+    import gstools as gs
+    n = 9
+    names = ["field", "second", "third"]
+    for process in (False, True):
+        for mname, kw in STORE_METHODS:
+            for src in names:
+                for store in (True, False, "fresh", names[(names.index(src) + 1) % 3], src):
+                    fld = gs.SRF(gs.Exponential(dim=1, var=1.3), mean=0.8)
+                    fld.set_pos([np.arange(n, dtype=float)], "unstructured")
+                    data = {}
+                    for nm in names:
+                        data[nm] = rng.normal(0.8, math.sqrt(1.3), size=n)
+                        fld.post_field(data[nm], name=nm, process=False, save=True)
+                    keep_mean = bool(rng.random() < 0.5)
+                    # the same call on a fresh object that stores nothing gives the expected values
+                    ref_f = gs.SRF(gs.Exponential(dim=1, var=1.3), mean=0.8)
+                    ref_f.set_pos([np.arange(n, dtype=float)], "unstructured")
+                    ref_f.post_field(data[src], name="field", process=False, save=True)
+                    want = impl_call(ref_f.transform, mname, field="field", store=False, process=process, keep_mean=keep_mean, **kw)
+                    got = impl_call(fld.transform, mname, field=src, store=store, process=process, keep_mean=keep_mean, **kw)
+                    ctx.count(("store", mname, str(kw.get("thresholds")), src, str(store) if isinstance(store, bool) else ("same" if store == src else store), process),
+                              hist=dict(store_probe="%s/%s" % (src, store if isinstance(store, bool) else ("source name" if store == src else store))))
+                    target = src if store is True else None if store is False else store
+                    exp_names = names + ([target] if target is not None and target not in names else [])
+                    problems = []
+                    if is_err(got) or is_err(want) or not C.bit_equal(got, want):
+                        problems.append("returned values differ from the transformation of the selected field")
+                    if list(fld.field_names) != exp_names:
+                        problems.append("stored names %s, expected %s" % (list(fld.field_names), exp_names))
+                    if not problems:
+                        for nm in exp_names:
+                            cur = np.array(fld[nm], dtype=float)
+                            if nm == target:
+                                if not C.bit_equal(cur, got):
+                                    problems.append("'%s' should hold the returned array" % nm)
+                            elif not C.bit_equal(cur, data[nm]):
+                                problems.append("stored field '%s' was changed" % nm)
+                    if problems:
+                        report(ctx, "probe: stored fields after Field.transform('%s', field='%s', store=%r)" % (mname, src, store),
+                               "; ".join(problems),
+                               dict(method=mname, kwargs={k: (v if not callable(v) else "lambda d: 2 d + 1") for k, v in kw.items()}, field=src, store=store, process=process,
+                                    keep_mean=keep_mean, stored={k: hexl(v) for k, v in data.items()}, names_after=list(fld.field_names)),
+                               key="store:%s" % ("True" if store is True else "False" if store is False else "name"))
+
+
+def input_classes(ctx, rng):
+    """the field (and numeric options) in every container / dtype a caller may pass: list, tuple, float32, integer arrays, 0-d array,
+    numpy scalar, Python float, one-element list, 2-d array, non-contiguous view; options as numpy scalars of several dtypes.
+    Each result must equal the one for the equivalent contiguous float64 array (float32: to float32 accuracy)."""
+    from gstools.transform import array as A
+    x = rng.normal(1.2, 0.9, size=12)
+    xi = np.round(x * 3).astype(np.int64)
+    m, v = 1.2, 0.81
+    fns = [
+        ("array_to_uniform", dict(mean=m, var=v, low=-1.0, high=3.0)), ("array_to_arcsin", dict(mean=m, var=v)), ("array_to_arcsin", dict(mean=m, var=v, a=-2.0, b=5.0)),
+        ("array_to_uquad", dict(mean=m, var=v)), ("array_to_uquad", dict(mean=m, var=v, a=-2.0, b=5.0)), ("array_zinnharvey", dict(conn="high", mean=m, var=v)),
+        ("array_zinnharvey", dict(conn="low", mean=m, var=v)), ("array_force_moments", dict(mean=0.5, var=2.0)), ("array_to_lognormal", {}),
+        ("array_boxcox", dict(lmbda=0.5, shift=1.0)), ("array_boxcox", dict(lmbda=0, shift=0)),
+        ("array_discrete", dict(values=[0.5, 1.5, 2.5], thresholds="arithmetic")), ("array_discrete", dict(values=[0.5, 1.5, 2.5], thresholds="equal", mean=m, var=v)),
+        ("array_discrete", dict(values=[0.5, 1.5, 2.5], thresholds=[0.9, 1.8])), ("array_discrete", dict(values=(0.5, 1.5), thresholds=(1.1,))),
+    ]
+    big = np.zeros((12, 3))
+    big[:, 1] = x
+    for name, kw in fns:
+        f = getattr(A, name)
+        base = impl_call(f, x, **kw)
+        base_i = impl_call(f, xi.astype(float), **kw)
+        variants = [("list", list(x), base, 1e-12), ("tuple", tuple(x), base, 1e-12), ("float32", x.astype(np.float32), impl_call(f, x.astype(np.float32).astype(float), **kw), 3e-5),
+                    ("int64", xi, base_i, 1e-12), ("int32", xi.astype(np.int32), base_i, 1e-12), ("list of int", [int(q) for q in xi], base_i, 1e-12),
+                    ("2-d", x.reshape(3, 4), None if is_err(base) or name == "array_force_moments" and False else (base.reshape(3, 4) if not is_err(base) else base), 1e-12),
+                    ("non-contiguous view", big[:, 1], base, 1e-12), ("reversed view", x[::-1], None, 1e-12)]
+        if name != "array_force_moments":     # the sample variance of a single value is 0: 0/0 by definition
+            one = impl_call(f, x[:1], **kw) if not (kw.get("mean", 0) is None) else None
+            variants += [("0-d array", np.array(x[0]), one, 1e-12), ("numpy scalar", np.float64(x[0]), one, 1e-12), ("python float", float(x[0]), one, 1e-12),
+                         ("one-element list", [float(x[0])], one, 1e-12)]
+        for vname, arg, want, rt in variants:
+            got = impl_call(f, arg, **kw)
+            ctx.count(("input-class", name, vname, str(kw.get("thresholds"))[:8]), hist=dict(input_class=vname))
+            if vname == "reversed view":
+                want = base[::-1] if not is_err(base) else base
+                if name == "array_force_moments" or kw.get("mean", 0) is None:
+                    rt = 1e-12
+            if is_err(want):
+                ok = is_err(got) and got[:2] == want[:2]
+            else:
+                ok = (not is_err(got)) and np.asarray(got).size == np.asarray(want).size and close(np.ravel(got), np.ravel(want), rtol=rt, scale=1.0 + np.abs(np.ravel(want)))
+                if ok and vname in ("2-d",):
+                    ok = np.shape(got) == (3, 4)
+            if not ok:
+                report(ctx, "probe: %s with the field given as %s" % (name, vname),
+                       "%s(field as %s) differs from the result for the equivalent float64 array" % (name, vname),
+                       dict(function=name, kwargs={k: (list(v_) if isinstance(v_, tuple) else v_) for k, v_ in kw.items()}, field_class=vname,
+                            field=hexl(np.ravel(np.asarray(arg, dtype=float))), got=(list(got) if is_err(got) else hexl(got)), want=(list(want) if is_err(want) else hexl(want))),
+                       key="input-class:%s:%s" % (name, vname))
+        if name == "array_discrete":
+            xn = x.copy()
+            xn[[2, 7]] = np.nan
+            got = impl_call(f, xn, **{k: v_ for k, v_ in kw.items()})
+            ctx.count(("input-class", name, "NaN cells", str(kw.get("thresholds"))[:8]), hist=dict(input_class="NaN cells"))
+            fin = ~np.isnan(xn)
+            if is_err(got) or is_err(base) or not np.isnan(got[~fin]).all() or not bool((got[fin] == base[fin]).all()):
+                report(ctx, "probe: array_discrete with NaN cells", "array_discrete: NaN cells must stay NaN and must not influence the other cells",
+                       dict(function=name, kwargs={k: (list(v_) if isinstance(v_, tuple) else v_) for k, v_ in kw.items()}, field=hexl(xn),
+                            got=(list(got) if is_err(got) else hexl(got))), key="input-class:array_discrete:nan")
+        # numeric options as numpy scalars of other dtypes
+        num = {k: v_ for k, v_ in kw.items() if isinstance(v_, (int, float)) and not isinstance(v_, bool)}
+        for tname, conv in (("np.float32", np.float32), ("np.float64", np.float64), ("0-d array", lambda q: np.array(q, dtype=float)), ("np.int64 (integral values)", None)):
+            if conv is None:
+                kw2 = {k: (np.int64(v_) if float(v_).is_integer() else v_) for k, v_ in kw.items() if k in num}
+            else:
+                kw2 = {k: conv(v_) for k, v_ in num.items()}
+            kwf = dict(kw, **{k: float(v_) for k, v_ in kw2.items()})
+            want = impl_call(f, x, **kwf)
+            got = impl_call(f, x, **dict(kw, **kw2))
+            ctx.count(("option-class", name, tname), hist=dict(input_class="options as " + tname))
+            ok = (is_err(want) and is_err(got) and got[:2] == want[:2]) or (not is_err(want) and not is_err(got) and close(got, want, rtol=1e-12, scale=1.0 + np.abs(want)))
+            if not ok:
+                report(ctx, "probe: %s with options given as %s" % (name, tname), "%s: options as %s give another result than the same values as Python floats" % (name, tname),
+                       dict(function=name, kwargs={k: repr(v_) for k, v_ in dict(kw, **kw2).items()}, field=hexl(x), got=(list(got) if is_err(got) else hexl(got)),
+                            want=(list(want) if is_err(want) else hexl(want))), key="option-class:%s" % name)
+
+
 # --------------------------------------------------------------------------- run
 
 def run(ctx):
     rng = C.Rng(ctx.seed, "C19")
     ctx.rule = ("cases = (array function | Field.transform wrapper) x size x mean/var given or estimated x bounds/values/threshold mode x "
                 "process x keep_mean x normalizer x trend x store kind x outcome, plus zero-valued options in six spellings, in-place parameter changes "
-                "between calls, and mesh kind x dim x axis lengths x mean/trend kind cells; a case is non-trivial when the field has >= 2 cells; "
+                "between calls, mesh kind x dim x axis lengths x mean/trend kind cells, geometric approach to every branch threshold, mean/std ratios 1..1e8, "
+                "field / option input classes, source-field x store selection; a case is non-trivial when the field has >= 2 cells; "
                 "distinct = distinct option keys")
     ctx.trusted = [
         "Coq 8.16.1 kernel (coqc); no native_compute",
@@ -1115,7 +1503,7 @@ def run(ctx):
         "that the input IS normal (hypothesis of the property): theorems are push-forward identities F_target(T x) = Phi((x-m)/sigma) with T monotone",
         "moments of the arcsine / U-quadratic laws are not derived from their cdfs by integration (probed numerically)",
         "IEEE rounding: theorems are over exact reals; the float instance of the same definitions is what the correspondence executes",
-        "NaN / integer-dtype inputs of array_discrete, None means, invalid store names: outside the modelled domain; callable means are outside the Gallina record (covered by the mesh/mean/trend cells of the correspondence with the pre/post steps done by the harness)",
+        "None means, invalid store names, vector fields: outside the modelled domain; NaN cells, non-float64 field containers and structured meshes are covered by probes / cells only; callable means are outside the Gallina record (covered by the mesh/mean/trend cells of the correspondence with the pre/post steps done by the harness)",
     ]
     for f in ("array_force_moments", "array_discrete", "array_* with mean=None / var=None (np.mean / np.var of the data)",
               "Field.transform wrappers (apply, binary, discrete, boxcox, zinnharvey, normal_*; process/keep_mean/store)"):
@@ -1142,7 +1530,11 @@ def run(ctx):
             wrapper_correspondence(ctx, C.Rng(ctx.seed, "C19/wrapper"), drv)
             falsy_options(ctx, C.Rng(ctx.seed, "C19/falsy"), drv)
             grid_cells(ctx, C.Rng(ctx.seed, "C19/cells"), drv)
+            threshold_approach(ctx, C.Rng(ctx.seed, "C19/thresholds"), drv)
+            scale_ratios(ctx, C.Rng(ctx.seed, "C19/ratios"), drv)
         n_corr = len(ctx.violations) - n0
+        probe_store(ctx, C.Rng(ctx.seed, "C19/store"))
+        input_classes(ctx, C.Rng(ctx.seed, "C19/classes"))
         probe_partition(ctx, C.Rng(ctx.seed, "C19/partition"))
         probe_pointwise(ctx, C.Rng(ctx.seed, "C19/pointwise"))
         probe_ks(ctx, C.Rng(ctx.seed, "C19/ks"))
